@@ -6,7 +6,7 @@ EXPLANATION = ("Termination / no-repeat follows from a lexicographic measure ove
                "premises on the MIR of the current tree: explore() re-arms only Skip alternatives (X1); the exploration state of a branch is "
                "written only by branch creation, step() and explore(), with the documented values (X2); every successful step() strictly "
                "advances the deepest non-exhausted branch, discards everything deeper, visits branches from the deepest, and reports "
-               "exhaustion only after the loop (X3); step() resets the per-iteration fields and exhaustion propagates to Builder::check (X4). "
+               "exhaustion only after the loop (X3); no loop of the walks over the branch stack can go round without moving its cursor (X5); the explored alternative is retired before the next one is promoted (X6); step() resets the per-iteration fields and exhaustion propagates to Builder::check (X4). "
                "The argument itself (DESIGN.md C14) is manual; determinism of user code and iteration counts are not decided."
                " G0/G1 cross-check the arm/branch steps against the reference tree.")
 RULE_TEXT = "rule instances = writers of branch state, arms of step(), reset fields; non-trivial when matched to concrete MIR sites"
@@ -17,9 +17,16 @@ def run(ctx):
     from . import guardvocab
     guardvocab.G0(ctx, effects={'branch', 'explore'})
     guardvocab.G1(ctx, effects={'branch', 'explore'})
+    guardvocab.G2(ctx, scopes=('rt::path::', 'rt::execution::Execution::step'))
+    guardvocab.G3(ctx, scopes=('rt::path::', 'rt::execution::Execution::step'))
     ctx.assume("lexicographic-measure argument of DESIGN.md section 5 (C14) from premises X1-X4 and B3")
     pathrules.X1(ctx)
     pathrules.X2(ctx)
     pathrules.X3(ctx)
     pathrules.X4(ctx)
+    pathrules.X5(ctx)
+    pathrules.X6(ctx)
     pathrules.B3(ctx)
+    # a resumed exploration continues from the recorded cursors
+    from . import modelrules
+    modelrules.Z1(ctx)
